@@ -72,7 +72,8 @@ def unjustified_sites():
     if rc != 0:
         return None, out[-1500:]
     body = out.split(": list", 1)[0]
-    sites = re.findall(r'\("([^"]*)",\s*"([^"]*)",\s*(\w+),\s*"((?:[^"]|"")*)",\s*(\[[^\]]*\]|nil),\s*"([^"]*)"\)', body)
+    sites = re.findall(r'\(\s*"([^"]*)",\s*"([^"]*)",\s*(\w+),\s*"((?:[^"]|"")*)",\s*((?:"(?:[^"]|"")*"\s*::\s*)*nil|\[[^\]]*\]),'
+                       r'\s*"([^"]*)"\s*\)', body, flags=re.S)
     return [{"package": a, "function": b, "kind": k, "expression": e.replace('""', '"'), "conditions": c, "at": d}
             for a, b, k, e, c, d in sites], ""
 
